@@ -216,18 +216,21 @@ def table_d_sample(tier, sd, nquick=25):
                 else:
                     ids.append(m)
             return ids
-        def length(flat, i, end):
-            """number of data fields when every delayed replication takes one repetition"""
+        def length(flat, i, end, clip=True):
+            """number of data fields when every delayed replication takes one repetition (clip: an inner replication ends where
+            the enclosing one ends - or takes its X descriptors regardless; the larger of the two readings is bounded)"""
             total = 0
             while i < end:
                 d = flat[i]
                 if d.startswith('1'):
                     x, y = int(d[1:3]), int(d[3:])
                     if y == 0:
-                        total += 1 + length(flat, i + 2, min(end, i + 2 + x))
+                        stop = min(end, i + 2 + x) if clip else min(len(flat), i + 2 + x)
+                        total += 1 + length(flat, i + 2, stop, clip)
                         i += 2 + x
                     else:
-                        total += y * length(flat, i + 1, min(end, i + 1 + x))
+                        stop = min(end, i + 1 + x) if clip else min(len(flat), i + 1 + x)
+                        total += y * length(flat, i + 1, stop, clip)
                         i += 1 + x
                 else:
                     total += 1
@@ -243,7 +246,7 @@ def table_d_sample(tier, sd, nquick=25):
             ops = [d for d in flat if d.startswith('2')]
             # (fixed replications with large counts make behaviours of 10 000 and more fields - 340001, 340009: states grow with
             # the output sequence, one such template does not finish in an hour)
-            if ok and ndel <= 3 and len(flat) <= 60 and length(flat, 0, len(flat)) <= 400 and all(d[:3] in ('201', '202', '204', '207', '208') for d in ops) \
+            if ok and ndel <= 3 and len(flat) <= 60 and max(length(flat, 0, len(flat)), length(flat, 0, len(flat), False)) <= 400 and all(d[:3] in ('201', '202', '204', '207', '208') for d in ops) \
                     and not any(d in ('031011', '031012') for d in flat):
                 picked.append([int(k)])
             if len(picked) >= (nquick if tier == 'quick' else 60):
